@@ -1,6 +1,7 @@
 (* The namespace trie: get_longest_namespace on a well-formed trie returns the
    longest key that is a prefix of the value. *)
 From RV Require Import Namespace.Model Namespace.Dict.
+From Coq Require Import Permutation.
 
 Lemma trie_ind' (P : trie -> Prop) :
   (forall kids, (forall k sub, In (k, sub) kids -> P sub) -> P (T kids)) -> forall t, P t.
@@ -166,10 +167,11 @@ Definition longest_of (vs : list str) (v : str) : option str :=
                                end
                           else acc) vs None.
 
-(* Starting point for the missing half of C17_trie (insert_trie keeps [wft]): the loop of
-   insert_trie as a function of its own, convertible with the nested fix of the model.
-   Plan: (A) if some sibling key is a proper prefix of v, no sibling starts with v and the
-   loop returns [dset kids k (insert_trie sub v)]; (B) otherwise it returns
+(* ------------------------------------------------------------------ *)
+(* insert_trie keeps a trie well-formed and adds exactly the value to its keys.
+   The loop of insert_trie as a function of its own, convertible with the nested fix of the
+   model.  (A) if some sibling key is a proper prefix of v, no sibling starts with v and
+   the loop returns [dset kids k (insert_trie sub v)]; (B) otherwise it returns
    [filter stay kids ++ [(v, T (filter moved kids))]], by the invariant
    cur = A ++ snap ++ [(v, T m)]. *)
 Section L.
@@ -189,3 +191,357 @@ Lemma insert_trie_eq kids v :
   insert_trie (T kids) v =
   if dmem kids v then T kids else T (ins_loop (fun sub => insert_trie sub v) v kids kids).
 Proof. cbn [insert_trie]. destruct (dmem kids v); reflexivity. Qed.
+
+(* dictionary facts used below *)
+Lemma dget_app {V} (l1 l2 : dict V) k :
+  dget (l1 ++ l2) k = match dget l1 k with Some x => Some x | None => dget l2 k end.
+Proof.
+  induction l1 as [|[k0 x0] r IH]; simpl; auto. destruct (str_eqb k k0); auto.
+Qed.
+
+Lemma dremove_app {V} (l1 l2 : dict V) k : dremove (l1 ++ l2) k = dremove l1 k ++ dremove l2 k.
+Proof. unfold dremove. apply filter_app. Qed.
+
+Lemma dremove_notin {V} (l : dict V) k : ~ In k (map fst l) -> dremove l k = l.
+Proof.
+  induction l as [|[k0 x0] r IH]; simpl; auto. intros H.
+  destruct (str_eqb_spec k k0) as [->|]; [tauto|]. simpl. f_equal. apply IH. tauto.
+Qed.
+
+Lemma dset_notin {V} (m : dict V) j x : ~ In j (map fst m) -> dset m j x = m ++ [(j, x)].
+Proof.
+  induction m as [|[k0 x0] r IH]; simpl; auto. intros H.
+  destruct (str_eqb_spec j k0) as [->|]; [tauto|]. f_equal. apply IH. tauto.
+Qed.
+
+Lemma dset_mid {V} (l1 l2 : dict V) k s x :
+  ~ In k (map fst l1) -> dset (l1 ++ (k, s) :: l2) k x = l1 ++ (k, x) :: l2.
+Proof.
+  induction l1 as [|[k0 x0] r IH]; simpl.
+  - intros _. now rewrite str_eqb_refl.
+  - intros H. destruct (str_eqb_spec k k0) as [->|]; [tauto|]. f_equal. apply IH. tauto.
+Qed.
+
+Lemma add_child_app l v m e :
+  ~ In v (map fst l) -> add_child (l ++ [(v, T m)]) v e = l ++ [(v, T (dset m (fst e) (snd e)))].
+Proof.
+  induction l as [|[k0 [ks]] r IH]; simpl.
+  - intros _. now rewrite str_eqb_refl.
+  - intros H. destruct (str_eqb_spec v k0) as [->|]; [tauto|]. f_equal. apply IH. tauto.
+Qed.
+
+Lemma sw_len a b : starts_with a b = true -> a <> b -> length b < length a.
+Proof.
+  rewrite starts_with_iff. intros [r ->] H. rewrite app_length.
+  destruct r; [rewrite app_nil_r in H; congruence|simpl; lia].
+Qed.
+
+Section Loop.
+  Variables (ins : trie -> trie) (v : str).
+  Definition test1 (k : str) : bool := N.ltb (N_len k) (N_len v) && starts_with v k.
+  Definition movedb (e : str * trie) : bool := starts_with (fst e) v.
+  Definition stayb (e : str * trie) : bool := negb (starts_with (fst e) v).
+
+  Lemma loop_descend : forall l1 cur k sub l2,
+    (forall j s, In (j, s) l1 -> test1 j = false /\ starts_with j v = false) ->
+    test1 k = true ->
+    ins_loop ins v (l1 ++ (k, sub) :: l2) cur = dset cur k (ins sub).
+  Proof.
+    induction l1 as [|[j s] r IH]; intros cur k sub l2 H Hk; cbn [app ins_loop].
+    - unfold test1 in Hk. now rewrite Hk.
+    - destruct (H j s (or_introl eq_refl)) as [H1 H2]. unfold test1 in H1. rewrite H1, H2.
+      apply IH; auto. intros j' s' Hin. apply (H j' s'). now right.
+  Qed.
+
+  Lemma loop_move : forall snap A m (has : bool),
+    (forall j s, In (j, s) snap -> test1 j = false) ->
+    NoDup (map fst (m ++ A ++ snap)) -> ~ In v (map fst (m ++ A ++ snap)) ->
+    (has = false -> m = []) ->
+    ins_loop ins v snap (A ++ snap ++ (if has then [(v, T m)] else []))
+    = (A ++ filter stayb snap) ++ [(v, T (m ++ filter movedb snap))].
+  Proof.
+    induction snap as [|[j sub] rest IH]; intros A m has Ht Hn Hv Hm; cbn [ins_loop filter].
+    - rewrite !app_nil_r. cbn [app]. unfold ensure, dmem.
+      destruct has.
+      + rewrite dget_app. cbn [dget]. rewrite str_eqb_refl. now destruct (dget A v).
+      + rewrite (Hm eq_refl), app_nil_r.
+        assert (E : dget A v = None).
+        { apply dget_None. intros Hin. apply Hv. rewrite !map_app. apply in_or_app. right.
+          apply in_or_app. now left. }
+        now rewrite E.
+    - assert (T1 := Ht j sub (or_introl eq_refl)). unfold test1 in T1. rewrite T1.
+      unfold stayb, movedb. cbn [fst]. destruct (starts_with j v) eqn:Ej; cbn [negb].
+      + (* moved under v *)
+        assert (Hjv : j <> v).
+        { intros ->. apply Hv. rewrite !map_app. apply in_or_app. right. apply in_or_app. right. now left. }
+        assert (NA : ~ In j (map fst A) /\ ~ In j (map fst rest) /\ ~ In j (map fst m)).
+        { rewrite !map_app in Hn. cbn [map fst] in Hn.
+          rewrite app_assoc in Hn. apply NoDup_remove_2 in Hn. rewrite !in_app_iff in Hn.
+          repeat split; intros X; apply Hn; tauto. }
+        destruct NA as (NA1 & NA2 & NA3).
+        assert (NV : ~ In v (map fst (A ++ rest))).
+        { intros X. apply Hv. rewrite !map_app in *. apply in_or_app. right.
+          apply in_app_or in X. destruct X as [X|X]; apply in_or_app; [now left|right; now right]. }
+        assert (E1 : ensure (A ++ ((j, sub) :: rest) ++ (if has then [(v, T m)] else [])) v
+                     = A ++ ((j, sub) :: rest) ++ [(v, T m)]).
+        { unfold ensure, dmem. destruct has.
+          - rewrite !dget_app. cbn [dget]. rewrite str_eqb_refl.
+            destruct (dget A v); [reflexivity|].
+            destruct (str_eqb v j); [reflexivity|]. now destruct (dget rest v).
+          - rewrite (Hm eq_refl), app_nil_r.
+            assert (E : dget (A ++ (j, sub) :: rest) v = None).
+            { apply dget_None. intros Hin. apply Hv. rewrite !map_app. apply in_or_app. right.
+              now rewrite <- map_app. }
+            rewrite E. now rewrite <- app_assoc. }
+        rewrite E1.
+        assert (E2 : dremove (A ++ ((j, sub) :: rest) ++ [(v, T m)]) j = (A ++ rest) ++ [(v, T m)]).
+        { rewrite !dremove_app. rewrite (dremove_notin A j NA1).
+          unfold dremove at 1. cbn [filter fst]. rewrite str_eqb_refl. cbn [negb].
+          fold (dremove rest j). rewrite (dremove_notin rest j NA2).
+          unfold dremove. cbn [filter fst].
+          destruct (str_eqb_spec j v); [congruence|]. cbn [negb]. now rewrite app_assoc. }
+        rewrite E2, (add_child_app (A ++ rest) v m (j, sub) NV). cbn [fst snd].
+        rewrite (dset_notin m j sub NA3).
+        rewrite <- app_assoc.
+        assert (R : ins_loop ins v rest (A ++ rest ++ [(v, T (m ++ [(j, sub)]))])
+                    = (A ++ filter stayb rest) ++ [(v, T ((m ++ [(j, sub)]) ++ filter movedb rest))]).
+        { apply (IH A (m ++ [(j, sub)]) true).
+          * intros j' s' Hin. apply (Ht j' s'). now right.
+          * rewrite !map_app in *. cbn [map fst] in *.
+            apply (Permutation_NoDup (l := map fst m ++ map fst A ++ j :: map fst rest)); [|exact Hn].
+            rewrite <- !app_assoc. apply Permutation_app_head. cbn [app].
+            apply Permutation_sym, Permutation_middle.
+          * intros X. apply Hv. rewrite !map_app in *. cbn [map fst] in *.
+            rewrite !in_app_iff in *. cbn [In] in *. tauto.
+          * discriminate. }
+        rewrite R. unfold stayb, movedb. now rewrite <- (app_assoc m).
+      + (* stays *)
+        replace (A ++ ((j, sub) :: rest) ++ (if has then [(v, T m)] else []))
+          with ((A ++ [(j, sub)]) ++ rest ++ (if has then [(v, T m)] else []))
+          by (rewrite <- app_assoc; reflexivity).
+        rewrite IH.
+        * now rewrite <- (app_assoc A).
+        * intros j' s' Hin. apply (Ht j' s'). now right.
+        * replace (m ++ (A ++ [(j, sub)]) ++ rest) with (m ++ A ++ (j, sub) :: rest); [exact Hn|].
+          now rewrite <- (app_assoc A).
+        * replace (m ++ (A ++ [(j, sub)]) ++ rest) with (m ++ A ++ (j, sub) :: rest); [exact Hv|].
+          now rewrite <- (app_assoc A).
+        * exact Hm.
+  Qed.
+End Loop.
+
+Lemma first_test v (kids : list (str * trie)) :
+  (exists l1 k sub l2, kids = l1 ++ (k, sub) :: l2 /\ test1 v k = true /\
+     forall j s, In (j, s) l1 -> test1 v j = false)
+  \/ (forall j s, In (j, s) kids -> test1 v j = false).
+Proof.
+  induction kids as [|[k sub] r IH]; [right; intros j s []|].
+  destruct (test1 v k) eqn:E.
+  - left. exists [], k, sub, r. split; [reflexivity|]. split; [exact E|]. intros j s [].
+  - destruct IH as [(l1 & k0 & s0 & l2 & -> & Hk & Hl)|Hall].
+    + left. exists ((k, sub) :: l1), k0, s0, l2. split; [reflexivity|]. split; [exact Hk|].
+      intros j s [X|X]; [inversion X; subst; exact E|eauto].
+    + right. intros j s [X|X]; [inversion X; subst; exact E|eauto].
+Qed.
+
+Lemma trie_keys_app l1 l2 : trie_keys (T (l1 ++ l2)) = trie_keys (T l1) ++ trie_keys (T l2).
+Proof.
+  induction l1 as [|[k sub] r IH]; [reflexivity|].
+  cbn [app]. rewrite !trie_keys_cons, IH. cbn [app]. now rewrite <- app_assoc.
+Qed.
+
+Lemma NoDup_keys_filter {V} (f : str * V -> bool) (l : dict V) :
+  NoDup (map fst l) -> NoDup (map fst (filter f l)).
+Proof.
+  induction l as [|e r IH]; simpl; auto. intros H; inversion H; subst.
+  destruct (f e); simpl; auto. constructor; auto.
+  intros X. apply H2. apply in_map_iff in X. destruct X as (e' & <- & Hin).
+  apply filter_In in Hin. apply in_map. tauto.
+Qed.
+
+Lemma In_keys_filter {V} (f : str * V -> bool) (l : dict V) a :
+  In a (map fst (filter f l)) -> In a (map fst l).
+Proof.
+  intros X. apply in_map_iff in X. destruct X as (e & <- & Hin). apply filter_In in Hin. apply in_map. tauto.
+Qed.
+
+Lemma wft_filter f kids : wft (T kids) -> wft (T (filter f kids)).
+Proof.
+  intros H; inversion H as [? H1 H2 H3 H4]; subst. constructor.
+  - now apply NoDup_keys_filter.
+  - intros a b Ha Hb. apply H2; eapply In_keys_filter; eauto.
+  - intros k sub Hin. apply filter_In in Hin. eapply H3; apply Hin.
+  - intros k sub k' Hin. apply filter_In in Hin. eapply H4; apply Hin.
+Qed.
+
+Lemma trie_keys_split f kids k' :
+  In k' (trie_keys (T kids)) <->
+  In k' (trie_keys (T (filter f kids))) \/ In k' (trie_keys (T (filter (fun e => negb (f e)) kids))).
+Proof.
+  rewrite !trie_keys_In. split.
+  - intros (k & sub & Hin & H). destruct (f (k, sub)) eqn:E; [left|right]; exists k, sub;
+      (split; [apply filter_In; split; [exact Hin|]|exact H]); [exact E|now rewrite E].
+  - intros [(k & sub & Hin & H)|(k & sub & Hin & H)]; apply filter_In in Hin; exists k, sub; tauto.
+Qed.
+
+Lemma test1_true v k : test1 v k = true -> starts_with v k = true /\ v <> k.
+Proof.
+  unfold test1. rewrite andb_true_iff, N.ltb_lt. unfold N_len. intros [H1 H2]. split; [exact H2|].
+  intros ->. lia.
+Qed.
+
+Lemma test1_false v k : test1 v k = false -> starts_with v k = true -> v = k.
+Proof.
+  unfold test1. intros H1 H2. rewrite H2, andb_true_r in H1. apply N.ltb_ge in H1.
+  destruct (str_eqb_spec v k) as [|Hne]; auto.
+  pose proof (sw_len _ _ H2 Hne). unfold N_len in H1. lia.
+Qed.
+
+Definition ins_ok (t : trie) (v : str) : Prop :=
+  wft (insert_trie t v) /\
+  forall k', In k' (trie_keys (insert_trie t v)) <-> k' = v \/ In k' (trie_keys t).
+
+Theorem insert_wft : forall t, wft t -> forall v, ins_ok t v.
+Proof.
+  apply (trie_ind' (fun t => wft t -> forall v, ins_ok t v)).
+  intros kids IH Hw v. unfold ins_ok. rewrite insert_trie_eq.
+  destruct (dmem kids v) eqn:Em.
+  { split; [exact Hw|]. intros k'. split; [auto|]. intros [->|H]; [|exact H].
+    unfold dmem in Em. destruct (dget kids v) as [sub|] eqn:E; [|discriminate].
+    apply trie_keys_In. exists v, sub. split; [now apply dget_In|now left]. }
+  assert (Hv : ~ In v (map fst kids)).
+  { apply dget_None. unfold dmem in Em. now destruct (dget kids v). }
+  inversion Hw as [? H1 H2 H3 H4]; subst.
+  destruct (first_test v kids) as [(l1 & k & sub & l2 & -> & Hk & Hl1)|Hall].
+  - (* descend into the one sibling that is a proper prefix of v *)
+    destruct (test1_true v k Hk) as [Pk Nk].
+    assert (Ink : In k (map fst (l1 ++ (k, sub) :: l2))).
+    { rewrite map_app. apply in_or_app. right. now left. }
+    assert (Hl : forall j s, In (j, s) l1 -> test1 v j = false /\ starts_with j v = false).
+    { intros j s Hin. split; [eauto|]. destruct (starts_with j v) eqn:E; auto.
+      assert (j = k).
+      { apply H2; auto.
+        - rewrite map_app. apply in_or_app. left. now apply (in_map fst) in Hin.
+        - eapply sw_trans; eauto. }
+      subst. rewrite (Hl1 k s Hin) in Hk. discriminate. }
+    rewrite (loop_descend _ v l1 _ k sub l2 Hl Hk).
+    assert (Nk1 : ~ In k (map fst l1)).
+    { rewrite map_app in H1. cbn [map fst] in H1. apply NoDup_remove_2 in H1.
+      intros X. apply H1. apply in_or_app. now left. }
+    rewrite (dset_mid l1 l2 k sub _ Nk1).
+    assert (Insub : In (k, sub) (l1 ++ (k, sub) :: l2)) by (apply in_or_app; right; now left).
+    destruct (IH k sub Insub (H3 k sub Insub) v) as [Wx Kx].
+    set (x := insert_trie sub v) in *.
+    assert (Emap : map fst (l1 ++ (k, x) :: l2) = map fst (l1 ++ (k, sub) :: l2)).
+    { now rewrite !map_app. }
+    assert (Hin' : forall k0 s0, In (k0, s0) (l1 ++ (k, x) :: l2) ->
+              (k0 = k /\ s0 = x) \/ In (k0, s0) (l1 ++ (k, sub) :: l2)).
+    { intros k0 s0 X. apply in_app_or in X. destruct X as [X|[X|X]].
+      - right. apply in_or_app. now left.
+      - inversion X; subst. now left.
+      - right. apply in_or_app. right. now right. }
+    split.
+    + constructor.
+      * now rewrite Emap.
+      * rewrite Emap. exact H2.
+      * intros k0 s0 X. destruct (Hin' k0 s0 X) as [[-> ->]|Y]; [exact Wx|eauto].
+      * intros k0 s0 k' X Hk'. destruct (Hin' k0 s0 X) as [[-> ->]|Y]; [|eauto].
+        apply Kx in Hk'. destruct Hk' as [->|Hk']; [split; auto|eauto].
+    + intros k'. rewrite !trie_keys_app, !trie_keys_cons, !in_app_iff. cbn [In].
+      rewrite !in_app_iff, Kx. tauto.
+  - (* no sibling is a proper prefix of v: siblings that start with v move under v *)
+    pose proof (loop_move (fun sub => insert_trie sub v) v kids [] [] false Hall) as R.
+    cbn [app] in R. rewrite app_nil_r in R. rewrite (R H1 Hv (fun _ => eq_refl)). clear R.
+    assert (Hstay : forall a, In a (map fst (filter (stayb v) kids)) ->
+              In a (map fst kids) /\ starts_with a v = false).
+    { intros a X. apply in_map_iff in X. destruct X as ([k0 s0] & <- & Hin).
+      apply filter_In in Hin. destruct Hin as [Hin Hs]. unfold stayb in Hs. cbn [fst] in *.
+      split; [now apply (in_map fst) in Hin|]. now destruct (starts_with k0 v). }
+    assert (Wm : wft (T (filter (movedb v) kids))) by now apply wft_filter.
+    assert (Ws : wft (T (filter (stayb v) kids))) by now apply wft_filter.
+    inversion Ws as [? S1 S2 S3 S4]; subst.
+    split.
+    + constructor.
+      * rewrite map_app. cbn [map fst]. apply NoDup_app_single; [exact S1|].
+        intros X. apply Hv. now apply Hstay.
+      * intros a b Ha Hb Hab. rewrite map_app in Ha, Hb. cbn [map fst] in Ha, Hb.
+        apply in_app_or in Ha, Hb. destruct Ha as [Ha|[<-|[]]], Hb as [Hb|[<-|[]]]; auto.
+        { destruct (Hstay a Ha) as [_ X]. congruence. }
+        { destruct (Hstay b Hb) as [Hb' _]. apply in_map_iff in Hb'. destruct Hb' as ([k0 s0] & <- & Hin).
+          cbn [fst] in *. now apply (test1_false v k0 (Hall k0 s0 Hin)). }
+      * intros k0 s0 X. apply in_app_or in X. destruct X as [X|[X|[]]]; [eauto|].
+        inversion X; subst. exact Wm.
+      * intros k0 s0 k' X Hk'. apply in_app_or in X. destruct X as [X|[X|[]]]; [eauto|].
+        inversion X; subst. apply trie_keys_In in Hk'. destruct Hk' as (m & sm & Hin & Hor).
+        apply filter_In in Hin. destruct Hin as [Hin Hm]. unfold movedb in Hm. cbn [fst] in Hm.
+        assert (Nm : m <> k0). { intros ->. apply Hv. now apply (in_map fst) in Hin. }
+        destruct Hor as [->|Hs]; [split; auto|].
+        destruct (H4 m sm k' Hin Hs) as [P N]. split; [eapply sw_trans; eauto|].
+        intros ->. apply Nm. now apply sw_antisym.
+    + intros k'. rewrite trie_keys_app, trie_keys_cons.
+      change (trie_keys (T [])) with (@nil str). rewrite app_nil_r, in_app_iff. cbn [In].
+      rewrite (trie_keys_split (movedb v) kids k').
+      assert (E : filter (fun e => negb (movedb v e)) kids = filter (stayb v) kids) by reflexivity.
+      rewrite E. intuition (subst; auto).
+Qed.
+
+Lemma wft_empty : wft (T []).
+Proof. constructor; [constructor| | |]; intros; simpl in *; tauto. Qed.
+
+Lemma fold_insert_wft : forall vs t, wft t ->
+  wft (fold_left insert_trie vs t) /\
+  forall k', In k' (trie_keys (fold_left insert_trie vs t)) <-> In k' vs \/ In k' (trie_keys t).
+Proof.
+  induction vs as [|v r IH]; intros t Hw; cbn [fold_left].
+  - split; [exact Hw|]. intros k'. simpl. tauto.
+  - destruct (insert_wft t Hw v) as [W K]. destruct (IH _ W) as [W' K']. split; [exact W'|].
+    intros k'. rewrite K', K. simpl. intuition (subst; auto).
+Qed.
+
+(* the trie built by inserting vs in the given order *)
+Lemma build_wft vs : wft (build vs) /\ forall k', In k' (trie_keys (build vs)) <-> In k' vs.
+Proof.
+  destruct (fold_insert_wft vs (T []) wft_empty) as [W K]. split; [exact W|].
+  intros k'. unfold build. rewrite K. simpl. tauto.
+Qed.
+
+(* get_longest_namespace after any insertion order: the longest inserted namespace that is
+   a prefix of the value *)
+Theorem gln_build vs v :
+  match gln (build vs) v with
+  | Some k => In k vs /\ starts_with v k = true /\
+              forall k', In k' vs -> starts_with v k' = true -> starts_with k k' = true
+  | None => forall k', In k' vs -> starts_with v k' = false
+  end.
+Proof.
+  destruct (build_wft vs) as [W K]. pose proof (gln_longest (build vs) W v) as L.
+  unfold longest in L. destruct (gln (build vs) v) as [k|].
+  - destruct L as (A & B & C). split; [now apply K|]. split; [exact B|].
+    intros k' Hin. apply C. now apply K.
+  - intros k' Hin. apply L. now apply K.
+Qed.
+
+(* "longest" in the usual sense *)
+Lemma sw_length a b : starts_with a b = true -> length b <= length a.
+Proof. rewrite starts_with_iff. intros [r ->]. rewrite app_length. lia. Qed.
+
+(* every node reachable by find_sub in a well-formed trie is a well-formed trie *)
+Lemma find_sub_wft : forall t, wft t -> forall v sub, find_sub t v = Some sub -> wft sub.
+Proof.
+  apply (trie_ind' (fun t => wft t -> forall v sub, find_sub t v = Some sub -> wft sub)).
+  intros kids IH Hw v sub. inversion Hw as [? H1 H2 H3 H4]; subst. cbn [find_sub].
+  destruct (dget kids v) as [s0|] eqn:E.
+  - intros X; inversion X; subst. apply dget_In in E. eauto.
+  - assert (G : forall l, (forall k s, In (k, s) l -> In (k, s) kids) ->
+      (fix loop (l : list (str * trie)) : option trie :=
+         match l with
+         | [] => None
+         | (k, sub) :: r =>
+             if (N.ltb (N_len k) (N_len v)) && starts_with v k then find_sub sub v else loop r
+         end) l = Some sub -> wft sub).
+    { induction l as [|[k s] r IHl]; intros Hsub; [discriminate|].
+      destruct ((N_len k <? N_len v)%N && starts_with v k).
+      - apply (IH k s); [apply Hsub; now left|]. apply (H3 k s). apply Hsub. now left.
+      - apply IHl. intros k' s' X. apply Hsub. now right. }
+    apply G. auto.
+Qed.
